@@ -367,7 +367,7 @@ class gr:
                 grresults["gr"] += countvalue
 
                 countsum = TIJ.sum(axis=1)
-                countsub = np.abs(TIJ[:, 0] - TIJ[:, 1])
+                countsub = np.abs(TIJ[:, 0].astype(np.int64) - TIJ[:, 1].astype(np.int64))
                 countvalue, binedge = np.histogram(
                     distance[countsum == 2], bins=self.maxbin, range=(0, self.maxbin * self.rdelta))
                 grresults["gr11"] += countvalue
@@ -444,7 +444,7 @@ class gr:
                 grresults["gr"] += countvalue
 
                 countsum = TIJ.sum(axis=1)
-                countsub = np.abs(TIJ[:, 0] - TIJ[:, 1])
+                countsub = np.abs(TIJ[:, 0].astype(np.int64) - TIJ[:, 1].astype(np.int64))
                 countvalue, binedge = np.histogram(
                     distance[countsum == 2], bins=self.maxbin, range=(0, self.maxbin * self.rdelta))
                 grresults["gr11"] += countvalue
@@ -542,7 +542,7 @@ class gr:
                 grresults["gr"] += countvalue
 
                 countsum = TIJ.sum(axis=1)
-                countsub = np.abs(TIJ[:, 0] - TIJ[:, 1])
+                countsub = np.abs(TIJ[:, 0].astype(np.int64) - TIJ[:, 1].astype(np.int64))
                 countvalue, binedge = np.histogram(
                     distance[countsum == 2], bins=self.maxbin, range=(0, self.maxbin * self.rdelta))
                 grresults["gr11"] += countvalue
